@@ -27,6 +27,10 @@ func (st *State) toReal(a *Term) *Term {
 		}
 		return st.ts.RealF(a.f)
 	}
+	if a.sort == SF64 && a.op == OIte {
+		// a selection among float constants (e.g. a symbolic index into a concrete table)
+		return st.ts.Ite(a.args[0], st.toReal(a.args[1]), st.toReal(a.args[2]))
+	}
 	panic(engineGap("FP term in a real-mode harness"))
 }
 
